@@ -31,7 +31,9 @@ func kern(driver fontP.SimpleKerns, crossStream bool, font *Font, buffer *Buffer
 
 		skippyIter.reset(idx, 1)
 		if ok, _ := skippyIter.next(); !ok {
-			idx++
+			// the glyphs the iterator went over are skipped from any start : the
+			// search would fail the same way from each of them (and be quadratic)
+			idx = max(idx+1, skippyIter.idx)
 			continue
 		}
 
